@@ -55,6 +55,44 @@ def run_controls(mod, pm, tier):
     return [_run_control(mod, pm, tier, c) for c in cs]
 
 
+def _one_twin(i):
+    mod, pm, twins = _G["mod"], _G["pm"], _G["twins"]
+    name, rel, edits = twins[i]
+    if rel not in pm.sources:
+        return {"name": name, "status": "n/a", "note": "file not analysed"}
+    src = pm.sources[rel]
+    for a, b in edits:
+        if a not in src:
+            return {"name": name, "status": "n/a", "note": "edit not applicable on this tree"}
+        src = src.replace(a, b)
+    try:
+        pm2 = pm.mutated({rel: src})
+        ctx2 = Ctx(mod.PROP, "control", quiet=True)
+        mod.run(pm2, ctx2)
+    except pmmod.AnalysisError as e:
+        return {"name": name, "status": "undecided", "note": str(e)[:200]}
+    base = _G["base_keys"]
+    new = [f for f in ctx2.findings if f.key_tuple() not in base]
+    if new:
+        return {"name": name, "status": "false-alarm", "note": str(new[0])[:300]}
+    if ctx2.undecided:
+        return {"name": name, "status": "undecided", "note": ctx2.undecided[0]["why"][:200]}
+    return {"name": name, "status": "silent", "note": ""}
+
+
+def run_twins(mod, pm, base_keys):
+    """thorough tier: behaviour-preserving rewrites must not produce a finding (rule self-check; a failure is exit 2)"""
+    sys.path.insert(0, os.path.join(os.path.dirname(HERE), "tools"))
+    from benign_twins import TWINS
+    import multiprocessing as mp
+    _G.update(mod=mod, pm=pm, twins=TWINS, base_keys=base_keys)
+    try:
+        with mp.get_context("fork").Pool(min(len(TWINS), os.cpu_count() or 4)) as pool:
+            return pool.map(_one_twin, range(len(TWINS)))
+    except Exception:
+        return [_one_twin(i) for i in range(len(TWINS))]
+
+
 def _run_control(mod, pm, tier, c):
     res = []
     for c in [c]:
@@ -116,8 +154,19 @@ def main():
                                               "controls": staticmethod(wrapped)})
                 controls = run_controls(mod_controls, pm, a.tier)
         census = pm.census()
+        extra = getattr(mod, "extra_coverage", lambda c: None)(ctx) or {}
+        twins = []
+        if a.tier == "thorough" and not a.no_controls:
+            twins = run_twins(mod, pm, base_keys)
+            extra["benign_twins"] = twins
+            extra["benign_twins_summary"] = {k: sum(1 for t in twins if t["status"] == k) for k in ("silent", "undecided", "false-alarm", "n/a")}
         rc = finalize(ctx, census, controls, mod.ASSUMPTIONS, mod.EXPLANATION,
-                      level=getattr(mod, "LEVEL", "other"), extra_cov=getattr(mod, "extra_coverage", lambda c: None)(ctx))
+                      level=getattr(mod, "LEVEL", "other"), extra_cov=extra)
+        bad = [t for t in twins if t["status"] == "false-alarm"]
+        if bad and rc == 0:
+            for t in bad:
+                print(f"ANALYSIS-ERROR property={prop} rule self-check: benign twin '{t['name']}' is reported: {t['note'][:160]}")
+            return 2
         return rc
     except pmmod.AnalysisError as e:
         print(f"ANALYSIS-ERROR property={prop} {e}")
